@@ -153,7 +153,7 @@ Qed.
 (* agent level, executed instance: after any history without the private resize helper, the matrix held
    by the state machine that Check.v steps is that run *)
 Theorem executed_agent_sigma (rr : bool) (lam : bigQ) (ly : layer) (ops : seq (@op bigQ)) :
-  List.forallb no_resize ops = true ->
-  sig (List.fold_left (Bstep rr) ops (Binit lam ly)) = Bsigma_run lam (segment ly ops).1 (segment ly ops).2.
+  List.forallb no_resize ops = true -> lam_clean ops = true ->
+  sig (List.fold_left (Bstep rr) ops (Binit lam ly)) = Bsigma_run (cur_lam lam ops) (segment ly ops).1 (segment ly ops).2.
 Proof. exact: agent_sigma_is_run. Qed.
 End Executed.
